@@ -109,7 +109,7 @@ def run(ctx):
         kept[name] = scenario(ctx, binary, name, per_action, per_verdict)
     if ctx.tier != "quick":
         # random walks over the whole universe (two activation heights)
-        kept["all"] = scenario(ctx, binary, "all", per_action, per_verdict, simulate=(30, 10))
+        kept["all"] = scenario(ctx, binary, "all", per_action, per_verdict, simulate=(20, 8))
         # cross-checks: the same behaviours on a node with minimal caches, and on a node with script-check worker threads
         for name in ("flags_t", "sig_t", "encw", "encs", "all"):
             paths, upath = kept[name]
